@@ -511,7 +511,7 @@ def gen_case(seed, i, tier="quick"):
         params["rx_n"] = rng.choice((18, 22, 26, 30, 40))
         params["rx_mode"] = rng.choice(("loop", "once"))
     # built-ins on 1-8 KiB operands with a seeded number of steps per iteration and phase
-    if ka != "regex" and rng.random() < 0.06:
+    if ka != "regex" and rng.random() < 0.18:
         ka = "loop_native_big"
     if ka == "loop_native_big":
         params["nb_size"] = rng.choice((1024, 2048, 3072, 4096, 5120, 8192))
